@@ -40,7 +40,13 @@ void X_free(uint8_t* p) { free(p); }
 /* exception objects: allocated, message dropped */
 uint8_t* X___cxa_allocate_exception(uint64_t n) { uint8_t* p = malloc(n ? n : 1); __CPROVER_assume(p != 0); return p; }
 void X___cxa_free_exception(uint8_t* p) { free(p); }
-#define EXC_CTOR_CSTR(m) void X_##m(uint8_t* self, uint8_t* msg) { (void)self; (void)msg; }
+/* std exception objects carry a valid vptr (Itanium layout: [-2] offset-to-top, [-1] typeinfo, [0] D1, [1] D0, [2] what) so
+ * that `catch (const std::exception& e) { e.what(); }` works in the model; what() text is the fixed string "what". */
+uint8_t* verif_std_exc_what(uint8_t* self) { (void)self; return (uint8_t*)"what"; }
+void verif_std_exc_dtor(uint8_t* self) { (void)self; }
+verif_fn_t verif_std_exc_vtable[5] = {0, 0, (verif_fn_t)verif_std_exc_dtor, (verif_fn_t)verif_std_exc_dtor, (verif_fn_t)verif_std_exc_what};
+static verif_fn_t* verif_std_exc_obj[4] = {&verif_std_exc_vtable[2], 0, 0, 0}; /* object thrown by the __throw_* models */
+#define EXC_CTOR_CSTR(m) void X_##m(uint8_t* self, uint8_t* msg) { (void)msg; *(verif_fn_t**)self = &verif_std_exc_vtable[2]; }
 #define EXC_DTOR(m) void X_##m(uint8_t* self) { (void)self; }
 EXC_CTOR_CSTR(_ZNSt16invalid_argumentC1EPKc) EXC_CTOR_CSTR(_ZNSt12out_of_rangeC1EPKc) EXC_CTOR_CSTR(_ZNSt13runtime_errorC1EPKc)
 EXC_CTOR_CSTR(_ZNSt11logic_errorC1EPKc) EXC_CTOR_CSTR(_ZNSt12length_errorC1EPKc) EXC_CTOR_CSTR(_ZNSt12domain_errorC1EPKc)
@@ -66,7 +72,7 @@ uint8_t* X__ZNKSt11logic_error4whatEv(uint8_t* self) { (void)self; return (uint8
 uint8_t* X__ZNKSt9exception4whatEv(uint8_t* self) { (void)self; return (uint8_t*)"what"; }
 uint8_t* X__ZNKSt9bad_alloc4whatEv(uint8_t* self) { (void)self; return (uint8_t*)"what"; }
 
-#define THROW_AS(tid) do { verif_exc_active = 1; verif_exc_ptr = 0; verif_exc_type = (tid); } while (0)
+#define THROW_AS(tid) do { verif_exc_active = 1; verif_exc_ptr = (uint8_t*)verif_std_exc_obj; verif_exc_type = (tid); } while (0)
 void X__ZSt20__throw_length_errorPKc(uint8_t* m) { (void)m; THROW_AS(TID__ZTISt12length_error); }
 void X__ZSt17__throw_bad_allocv(void) { THROW_AS(TID__ZTISt9bad_alloc); }
 void X__ZSt28__throw_bad_array_new_lengthv(void) { THROW_AS(TID__ZTISt20bad_array_new_length); }
@@ -82,7 +88,7 @@ void X___cxa_pure_virtual(void) { __CPROVER_assert(0, "pure virtual call"); __CP
 void X___clang_call_terminate(uint8_t* p) { (void)p; __CPROVER_assert(0, "std::terminate reached"); __CPROVER_assume(0); }
 uint32_t X___gxx_personality_v0() { return 0; }
 uint32_t X___cxa_atexit(uint8_t* f, uint8_t* a, uint8_t* d) { (void)f; (void)a; (void)d; return 0; }
-uint8_t* X___dso_handle;
+uint8_t X___dso_handle; /* IR type: external global i8 */
 uint32_t X___cxa_guard_acquire(uint8_t* g) { return *g == 0; }
 void X___cxa_guard_release(uint8_t* g) { *g = 1; }
 void X___cxa_guard_abort(uint8_t* g) { (void)g; }
@@ -108,3 +114,55 @@ uint32_t X_tolower(uint32_t c) { return (c >= 'A' && c <= 'Z') ? c + 32 : c; }
 uint32_t X_abs(uint32_t v) { return ((int32_t)v < 0) ? (uint32_t)(0 - v) : v; }
 static int verif_errno;
 uint8_t* X___errno_location(void) { return (uint8_t*)&verif_errno; }
+
+/* ---- atomics: bounded-round (Lal-Reps) sequentialisation of concurrent workers, see DESIGN.md C16 ----
+ * Off by default (identity). A harness registers the addresses of the shared atomic words, sets verif_seq_rounds = K and
+ * runs the threads one after another; at every atomic access the running thread may move to a later round (a context
+ * switch, chosen through verif_seq_choice() so that it is a logged harness input); round r>0 starts from guessed values
+ * which verif_seq_end() constrains to equal the values at the end of round r-1. Every sequentially consistent
+ * interleaving with at most K-1 context switches per thread corresponds to one solver assignment. */
+#ifndef VERIF_SEQ
+uint8_t* verif_atomic_addr(uint8_t* p) { return p; }
+#else
+#ifndef VERIF_SEQ_VARS
+#define VERIF_SEQ_VARS 2
+#endif
+#ifndef VERIF_SEQ_MAXR
+#define VERIF_SEQ_MAXR 8
+#endif
+uint8_t* verif_seq_var[VERIF_SEQ_VARS];
+uint64_t verif_seq_copy[VERIF_SEQ_MAXR][VERIF_SEQ_VARS];
+uint64_t verif_seq_guess[VERIF_SEQ_MAXR][VERIF_SEQ_VARS];
+uint32_t verif_seq_rounds = 1, verif_seq_round, verif_seq_on, verif_seq_ops;
+uint64_t verif_seq_choice(void); /* harness: logged nondeterministic round advance */
+uint64_t verif_seq_value(void); /* harness: logged nondeterministic 64-bit guess */
+uint8_t* verif_atomic_addr(uint8_t* p) {
+  if (!verif_seq_on) return p;
+  if (verif_seq_rounds > 1) {
+    uint64_t adv = verif_seq_choice();
+    __CPROVER_assume(adv < verif_seq_rounds && verif_seq_round + adv < verif_seq_rounds);
+    verif_seq_round += (uint32_t)adv;
+  }
+  verif_seq_ops++;
+  for (int i = 0; i < VERIF_SEQ_VARS; i++)
+    if (p == verif_seq_var[i]) return (uint8_t*)&verif_seq_copy[verif_seq_round][i];
+  __CPROVER_assert(0, "H: atomic access to an address that is not a registered shared word");
+  return p;
+}
+void verif_seq_begin(void) {
+  __CPROVER_assert(verif_seq_rounds >= 1 && verif_seq_rounds <= VERIF_SEQ_MAXR, "BOUND: rounds");
+  for (int i = 0; i < VERIF_SEQ_VARS; i++) {
+    verif_seq_copy[0][i] = *(uint64_t*)verif_seq_var[i];
+    for (uint32_t r = 1; r < verif_seq_rounds; r++) verif_seq_copy[r][i] = verif_seq_guess[r][i] = verif_seq_value();
+  }
+  verif_seq_on = 1;
+}
+void verif_seq_thread_start(void) { verif_seq_round = 0; verif_seq_ops = 0; }
+void verif_seq_end(void) {
+  for (int i = 0; i < VERIF_SEQ_VARS; i++) {
+    for (uint32_t r = 0; r + 1 < verif_seq_rounds; r++) __CPROVER_assume(verif_seq_copy[r][i] == verif_seq_guess[r + 1][i]);
+    *(uint64_t*)verif_seq_var[i] = verif_seq_copy[verif_seq_rounds - 1][i];
+  }
+  verif_seq_on = 0;
+}
+#endif /* VERIF_SEQ */
